@@ -298,6 +298,12 @@ func (d *ndpDriver) step(a action) (rec map[string]interface{}) {
 			return true
 		})
 		rec["spawned"] = c.nLoops() - n0
+	case "capture": // Session.Capture / Release: a per-MAC flag of the application, independent of the hunt list
+		if err := d.s.Capture(d.u.HuntMAC(a.s("mac"))); err != nil {
+			rec["cerr"] = err.Error()
+		}
+	case "release":
+		d.s.Release(d.u.HuntMAC(a.s("mac")))
 	case "stop":
 		d.h.StopHunt(d.addr(a))
 	case "close":
